@@ -19,7 +19,7 @@ func propC16() Property {
 		Explanation: "Sibling agreement of every in-module MessageStore implementation (memory, file, sql, mongo — the last is analysed although it cannot be run offline). " +
 			"R1 write-through: a persistent store updates its cache counter only on the nil-error edge of the medium write of the same value and the same direction. R2 location agreement: the medium location written for the outbound (inbound) counter is the one the loader feeds back into the outbound (inbound) cache counter — file handle ↔ file name pairing, SQL column ↔ scan position, document field; sender and target never cross. " +
 			"R3 range: the iteration callback runs only for begin <= seq <= end in ascending order and its error propagates. R4 reset/refresh shape: reset empties the cache, deletes the stored messages and persists fresh counters/creation time; refresh resets the cache and reloads. R5: Incr* = Set*(cache.Next*()+1) of the same direction (memory: Incr/Set/Next agree on one field per direction, Next = field+1, Set stores next-1). " +
-			"R6: save-and-increment = save (nil error) then increment of the outbound counter, or one transaction. R7: no error from the medium is dropped (tabulated: deferred Close/Rollback). R8 (shared with C17): the file store rewrites a counter from offset 0 without truncating, so the text must have a fixed width; with a variable width a shorter number leaves the tail of a longer one on disk and a refreshed or reopened store reads a different counter than the running one reports.",
+			"R6: save-and-increment = save (nil error) then increment of the outbound counter, or one transaction. R7: no error from the medium is dropped (tabulated: deferred Close/Rollback). R8 (shared with C17): the file store rewrites a counter from offset 0 without truncating, so the text must have a fixed width; with a variable width a shorter number leaves the tail of a longer one on disk and a refreshed or reopened store reads a different counter than the running one reports. R9: a query cursor (sql.Rows, mongo Cursor) is closed — directly or by defer — on every return after the query succeeded, including the one taken when the callback aborts. R10 (shared with C17): the file store appends a message at the end of the body file and indexes that offset, so a save after a refresh or reopen does not overwrite earlier messages.",
 		NotDecided: "equivalence with the abstract store over operation histories, byte-identity of stored messages, durability (C17), behaviour of the database drivers.",
 		Rules: []RuleDef{
 			{ID: "C16-R1", Desc: "write-through: cache after medium, same value, same direction", Min: 6, Run: c16R1},
@@ -30,6 +30,8 @@ func propC16() Property {
 			{ID: "C16-R6", Desc: "save-and-increment = save then increment / one transaction", Min: 4, Run: c16R6},
 			{ID: "C16-R7", Desc: "error discipline in store packages", Min: 20, Run: c16R7},
 			{ID: "C16-R8", Desc: "file counters are rewritten in place at fixed width (= C17-R3)", Min: 3, Run: c17R3},
+			{ID: "C16-R9", Desc: "query cursors are closed on every path", Min: 1, Run: c16R9},
+			{ID: "C16-R10", Desc: "file store: messages are appended at the end and indexed where they were written (= C17-R2)", Min: 3, Run: c17R2},
 		},
 	}
 }
@@ -192,6 +194,10 @@ func c16R1(c *Ctx) {
 				}
 				name := FuncName(fn)
 				pos := p.InstrPos(cl)
+				if len(cl.Common().Args) == 0 {
+					c.Violation(name, pos, "cache-incremented-directly:"+m, "the cached counter is moved with cache."+m+"() instead of being set to the value that was written to the medium: if the medium write fails or is rolled back the cache keeps the increment, and the store reports a number the medium does not hold")
+					continue
+				}
 				// loader role: value comes from a medium read
 				vo := p.Origin(cl.Common().Args[0])
 				if p.isLoader(fn) {
@@ -985,5 +991,81 @@ func c16R7(c *Ctx) {
 				c.Check(used, name, pos, "dropped:"+n, "error of "+n+" is checked", "the error returned by "+n+" is dropped: the store would report success for an operation the medium refused")
 			}
 		}
+	}
+}
+
+// C16-R9: a query cursor is closed on every path. After a successful Query every return of the
+// function is preceded by rows.Close() or a deferred one; a cursor left open on the path where the
+// iteration callback aborts keeps its connection (and, on SQLite, a read lock that makes every
+// later write of the store fail).
+func c16R9(c *Ctx) {
+	p := c.P
+	n := 0
+	isCursor := func(t types.Type) bool {
+		tn := typeName(t)
+		return tn == "Rows" || tn == "Cursor"
+	}
+	for _, s := range getStores(p) {
+		if s.Kind != "sql" && s.Kind != "mongo" {
+			continue
+		}
+		for _, fn := range s.method {
+			if fn == nil {
+				continue
+			}
+			for _, f := range WithClosures(fn) {
+				for _, cl := range Calls(f) {
+					sig := cl.Common().Signature()
+					if sig.Results().Len() < 1 || !isCursor(sig.Results().At(0).Type()) {
+						continue
+					}
+					n++
+					mf := &MustFlow{Fn: f}
+					mf.Transfer = func(in ssa.Instruction, st Set) {
+						if df, ok := in.(*ssa.Defer); ok {
+							if mc, ok := df.Call.Value.(*ssa.MakeClosure); ok {
+								if cf, ok := mc.Fn.(*ssa.Function); ok {
+									for _, c3 := range Calls(cf) {
+										nm := callName(c3.Common())
+										if (strings.HasSuffix(nm, ".Close") || strings.HasSuffix(nm, ").Close")) && len(c3.Common().Args) > 0 && isCursor(c3.Common().Args[0].Type()) {
+											st["closed"] = true
+										}
+									}
+								}
+							}
+						}
+						if c2, ok := in.(ssa.CallInstruction); ok {
+							nm := callName(c2.Common())
+							if strings.HasSuffix(nm, ".Close") || strings.HasSuffix(nm, ").Close") {
+								if len(c2.Common().Args) > 0 && isCursor(c2.Common().Args[0].Type()) {
+									st["closed"] = true
+								}
+							}
+						}
+					}
+					okAll := true
+					for r, st := range mf.AtReturns() {
+						// only returns after the query succeeded
+						if !InstrDominates(cl.(ssa.Instruction), r) {
+							continue
+						}
+						d := p.ReachCond(r.Block())
+						if !d.Implies(nilErrAtomFor(cl.(ssa.Instruction))) {
+							continue
+						}
+						if !st["closed"] {
+							okAll = false
+							c.Violation(FuncName(f), p.InstrPos(r), "cursor-not-closed", "the cursor obtained at "+p.InstrPos(cl.(ssa.Instruction))+" is not closed on this return (no Close call or deferred Close precedes it): when the iteration is cut short the cursor keeps its connection and the store's later writes fail or block")
+						}
+					}
+					if okAll {
+						c.OK(FuncName(f), p.InstrPos(cl.(ssa.Instruction)), "cursor closed on every return after a successful query")
+					}
+				}
+			}
+		}
+	}
+	if n == 0 {
+		c.Violation("", "-", "no-cursors", "no store method obtains a query cursor")
 	}
 }
